@@ -92,6 +92,10 @@ def main():
         state["k"] += 1
         if state["logging"]:
             log.append(entry)
+        if state.get("early") is not None and (entry[0] in ("exec", "rp", "fb") or (entry[0] == "cb" and entry[1] in ("Periodic", "AutoIter", "Feedback"))):
+            # the driver-station packet with the NEXT control word arrives while this pass is running (inside its first
+            # callback): it becomes current when the loop next refreshes its data, at the top of the next pass -- not earlier
+            set_word_holder[0](state.pop("early"))
         for (ci, a, v) in writes.get(k, []):
             # an ordinary attribute assignment of user code (written to the instance directly: components with an
             # interlock __setattr__ -- spec "hook" -- would refuse it otherwise)
@@ -101,6 +105,8 @@ def main():
             # the callback takes simulated time: the FPGA clock moves while the loop thread runs
             wsim.stepTimingAsync((us + 0.5) / 1e6)
         return k
+
+    set_word_holder = [None]
 
     def cb(site):
         k = begin(["cb"] + site)
@@ -345,12 +351,15 @@ def main():
     hal.simulation.restartTiming()
     ticks = case["ticks"]
 
+    early_ticks = set(case.get("early_word") or [])
+
     def set_word(t):
         DS.setEnabled(bool(t[0]))
         DS.setAutonomous(bool(t[1]))
         DS.setTest(bool(t[2]))
         hal.simulation.notifyDriverStationNewData()   # as a DS packet arrives: only the robot loop's own refreshData() makes it current
 
+    set_word_holder[0] = set_word
     DS.setDsAttached(True)
     DS.setFmsAttached(bool(case["fms"]))
     if case.get("match_type"):
@@ -508,6 +517,10 @@ def main():
             marks.append(len(log))
             continue
         set_word(t)
+        state.pop("early", None)
+        nxt = ticks[ti + 1] if ti + 1 < len(ticks) else None
+        if (ti + 1) in early_ticks and isinstance(nxt, list) and nxt[0] != "fms":
+            state["early"] = nxt
         step_tick(ti)
         if not wait_idle():
             hung = True
